@@ -40,7 +40,18 @@ Theorem C15_commit_position_bounds :
   (if up c then x <= commit_pos c m ea dyn x < x + m else x - m < commit_pos c m ea dyn x <= x).
 Proof. exact commit_pos_bounds. Qed.
 
+(* growth that fails (the base allocator refuses, or the size overflows) leaves the chunk the
+   collection lives in current, so finalising afterwards sets the position of the right chunk *)
+Theorem C15_failed_growth_keeps_current_chunk :
+  forall c s i size align r s1 e,
+  cfg_ok c -> ginv c s -> cur s = Cur i ->
+  valid_layout size align -> (align | size) -> resp_ok c s size align r ->
+  raw_prepare_range c s size align r = (s1, inr e) ->
+  cur s1 = Cur i /\ (forall k, (k <= i)%nat -> nth_error (chunks s1) k = nth_error (chunks s) k).
+Proof. exact failed_prepare_keeps_current. Qed.
+
 Print Assumptions C15_prepare_keeps_positions.
+Print Assumptions C15_failed_growth_keeps_current_chunk.
 Print Assumptions C15_commit_up_advance.
 Print Assumptions C15_commit_down_contents.
 Print Assumptions C15_commit_position_bounds.
